@@ -18,6 +18,8 @@ NOTES = {
 }
 
 def base_of(sid):
+    if "-r6" in sid:
+        return "3b86fcc"
     if "-r4" in sid or "-r5" in sid:
         return "19b16c8"
     if "-r3" in sid:
